@@ -129,7 +129,14 @@ func C20() *vk.Check {
 			p.MaxNodes = 6
 			return p
 		},
-		Hist:       func(r *vk.RNG, a *app.App) []string { return histWithClears(r, a, 6, 30) },
+		Hist: func(r *vk.RNG, a *app.App) []string { return histWithClears(r, a, 6, 30) },
+		Config: func(r *vk.RNG, a *app.App, cfg *app.Config) {
+			if r.Chance(1, 4) {
+				// a side-effect free pre-VM function (Engine.WithFirst): it must not unblock a terminated session
+				a.Funcs["_first"] = &app.FuncSpec{Sym: "_first", Kind: "idlang"}
+				cfg.First = true
+			}
+		},
 		NonTrivial: func(s *sessStats) bool { return s.Restarts >= 1 || s.Blocked >= 1 }}
 	return &vk.Check{ID: "C20", Level: "exploration", MinEvaluations: 300, Shards: func(string) int { return 16 }, Run: mc.run,
 		Rule: "reference-model monitor, persisted driver over mem, fs and the Postgres fake: applications with end nodes of both kinds (code ends right after HALT / ends without HALT) at depth 0..8, functions that set TERMINATE, CROAK, client flags set along the way, symbols loaded at several levels; histories continue past the end of the session over several end/restart cycles, and TERMINATE is cleared in the stored state (as client code would) at PRNG points. " +
